@@ -21,6 +21,21 @@ fn main() {
             let rep = rv::replay::Replayer::run_stdin_parallel(&prop, dir, log.as_deref(), threads);
             rep.finish();
         }
+        "replay-file" => {
+            // plain JSON lines (already extracted); single-threaded - used under valgrind
+            let prop = arg(&args, "--property").unwrap_or_else(|| "C00".into());
+            let path = arg(&args, "--in").unwrap();
+            let home = rv::engine::scratch_home("replayfile");
+            let mut r = rv::replay::Replayer::new(&prop, None, home.clone());
+            for line in std::fs::read_to_string(&path).unwrap().lines() {
+                if let Ok(v) = serde_json::from_str::<serde_json::Value>(line) {
+                    r.behaviour(&v);
+                }
+            }
+            let _ = std::fs::remove_dir_all(&home);
+            r.rep.finish();
+            drop(r);
+        }
         "record" => {
             let driver = arg(&args, "--driver").unwrap_or_default();
             let out = arg(&args, "--out").unwrap();
